@@ -41,6 +41,8 @@ func init() { register("C09", runC09) }
 type c09Case struct {
 	Kind    string   `json:"kind"`              // cli | script | web | tagfilter | session | locate | completer
 	Profile string   `json:"profile,omitempty"` // hex of the serialized (uncompressed) profile
+	Bases   []string `json:"bases,omitempty"`   // hex of base profiles: passed as -base / -diff_base sources
+	Diff    bool     `json:"diff_base,omitempty"`
 	Args    []string `json:"args_hex,omitempty"`
 	Env     []string `json:"env,omitempty"`
 	Lines   []string `json:"lines_hex,omitempty"` // interactive lines / web "path?query" / completer lines
@@ -151,7 +153,18 @@ func c09Exec(c *Ctx, e *c09Env, id int, cs *c09Case) *c09ProcResult {
 	pf := filepath.Join(work, "prof.pb")
 	pb, _ := hex.DecodeString(cs.Profile)
 	os.WriteFile(pf, pb, 0o644)
-	args := append(unhexAll(cs.Args), pf)
+	args := unhexAll(cs.Args)
+	for i, b := range cs.Bases {
+		bf := filepath.Join(work, fmt.Sprintf("base%d.pb", i))
+		bb, _ := hex.DecodeString(b)
+		os.WriteFile(bf, bb, 0o644)
+		if cs.Diff {
+			args = append(args, "-diff_base="+bf)
+		} else {
+			args = append(args, "-base="+bf)
+		}
+	}
+	args = append(args, pf)
 	res := &c09ProcResult{cs: cs}
 	var stdin bytes.Buffer
 	if cs.Kind == "script" {
